@@ -30,3 +30,18 @@ Theorem C20_next_no_resolution : forall sub hasm chk fresh st k st1 h r ops c,
               = (fst (crun sub hasm chk fresh st1 ops), out, false).
 Proof. exact resolved_once_next. Qed.
 Print Assumptions C20_next_no_resolution.
+
+(* ---- at the level of the function (Model/Graph.v, tied to /repo by C16's correspondence): what does not change the set
+   of methods does not rebuild -- a use of a built function, and an add_mixins that adds nothing (no argument, or only the
+   function itself), leave the whole graph, hence every table in service, exactly as it was ---- *)
+From OvldV Require Import Model.Graph Proofs.GraphNoop.
+
+Theorem C20_use_of_built_function_rebuilds_nothing : forall g n x,
+  g_get g n = Some x -> n_compiled x = true -> step g (OUse n) = (g, Done).
+Proof. exact use_of_built_is_noop. Qed.
+Print Assumptions C20_use_of_built_function_rebuilds_nothing.
+
+Theorem C20_empty_add_mixins_rebuilds_nothing : forall g n ms,
+  (forall m, In m ms -> m = n) -> fst (step g (OAddMixins n ms)) = g.
+Proof. exact empty_add_mixins_is_noop. Qed.
+Print Assumptions C20_empty_add_mixins_rebuilds_nothing.
